@@ -44,8 +44,14 @@ Abs == IF n = 0 THEN <<0>>
                IF Cardinality(Clear) = 1 THEN CHOOSE i \in Clear : TRUE ELSE -1,
                \A i \in SlackPos : bits[i],
                \E i \in SlackPos : bits[i] >>
-EdgeView == <<n, bl, res>>                \* every operation with every argument and result, per (n, backing)
+
 FocusView == <<n, bl, Abs, res.op>>       \* every operation kind on every abstract content, per (n, backing)
+
+\* BFS over (n, backing, abstract content) only; every transition prints its history
+\* (ACTION_CONSTRAINT): one shortest history per (abstract state, operation+argument) edge
+AbsView == <<n, bl, Abs>>
+EmitEdge == PrintT(<<"SCN", ToJson(hist')>>)
+GLensQuick == {1, 7, 8, 9, 16, 17, 24}
 
 EmitAll  == hist # <<>> => PrintT(<<"SCN", ToJson(hist)>>)
 EmitFull == Len(hist) = Depth => PrintT(<<"SCN", ToJson(hist)>>)
